@@ -175,3 +175,16 @@ package lang
 //@   loop 3 invariant 0 <= i && i <= len(*procs) && len(*procs) == len(old(*procs)) && GlobalFIDs.list != nil
 //@   loop 3 invariant forall(k, i, len(*procs), (*procs)[k].Stdout != nil && (*procs)[k].Stderr != nil)
 //@   loop 3 decreases len(*procs) - i
+
+// Register: the FID is the atomically incremented counter, so FIDs are strictly increasing over the
+// session (no FID is ever handed out twice); the process is stored under exactly that FID.
+//@ func (*funcID).Register [C28 C19 C32]
+//@   requires f != nil && f.list != nil && p != nil && p.Variables != nil
+//@   ensures result == old(f.latest) + 1 && f.latest == result
+//@   ensures p.Id == result && f.list[result] == p && has(f.list, result)
+
+//@ func (*funcID).Proc [C28 C19 C32]
+//@   requires f != nil && f.list != nil
+//@   ensures imp(fid == 0, result1 != nil)
+//@   ensures imp(result1 == nil, result != nil && result == old@lock1(f.list[fid]))
+//@   ensures imp(result1 != nil, result == nil)
